@@ -274,17 +274,30 @@ func c11Codec(kind string, v jm) (enc func() ([]byte, error), dec func([]byte) (
 			if err != nil {
 				return nil, fmt.Errorf("base: %w", err)
 			}
-			// member names follow the base type (8 + 4 bytes), each NUL-terminated and padded to 8
+			// format specification, enumeration class: the member names follow the base type (8 + 4 bytes), each
+			// NUL-terminated (padded to 8 only before version 3), then all values
 			off := 8 + len(base.Properties)
 			names := []string{}
-			for i := 0; i < int(dt.ClassBitField&0xffff) && off < len(p); i++ {
+			nm := int(dt.ClassBitField & 0xffff)
+			for i := 0; i < nm && off < len(p); i++ {
 				e := bytes.IndexByte(p[off:], 0)
 				if e < 0 {
 					return nil, fmt.Errorf("enum name %d not terminated", i)
 				}
 				names = append(names, string(p[off:off+e]))
-				off += ((e + 1 + 7) / 8) * 8
-				off += int(dt.Size)
+				if dt.Version < 3 {
+					off += ((e + 1 + 7) / 8) * 8
+				} else {
+					off += e + 1
+				}
+			}
+			if off+nm*int(dt.Size) != len(p) {
+				return nil, fmt.Errorf("enum: %d bytes after the names, %d members of %d bytes", len(p)-off, nm, dt.Size)
+			}
+			for i := 0; i < nm; i++ {
+				if p[off+i*int(dt.Size)] != byte(i+1) {
+					return nil, fmt.Errorf("enum value %d is %d", i, p[off+i*int(dt.Size)])
+				}
 			}
 			return jm{"class": int(dt.Class), "ver": int(dt.Version), "size": int(dt.Size), "bits": int(dt.ClassBitField), "base": projBase(base), "names": names}, nil
 		}
